@@ -223,7 +223,7 @@ def run(ctx):
             st["samples"].append({"where": a["text"], "rows": sorted(got)})
     # recorded findings: replay the witnesses
     for k in load_known():
-        if k["property"] == "C02" and k["status"] == "known":
+        if k["property"] == "C02" and k["status"] == "known" and "where" in k["witness"]:
             w = k["witness"]
             rows, r = qlib.select(ctx.impl, "path", "from w where " + w["where"], cwd=ctx.scratch)
             exp = sorted(p for p, n in entries if attr(n, p, w["col"]) == w["value"]) if "value" in w else None
@@ -232,6 +232,8 @@ def run(ctx):
                 ctx.known_lines.append("KNOWN-FINDING: property=C02 %s %s" % (k["id"], k["what"]))
             else:
                 ctx.notes.append("%s: witness no longer fails; update KNOWN_FINDINGS.json" % k["id"])
+    from .common import replay_generic_known
+    replay_generic_known(ctx, 'C02')
     ctx.coverage.update(
         evaluations=len(atoms), distinct_nontrivial=len(st["distinct"]), traces_validated_against_impl=st["agreed"],
         rule="one tree (files with sizes at unit boundaries m*n-1, m*n, m*n+1, owners without names, hard links, suid/sgid/odd permission bits, dot-files, names that spell keywords, links, a FIFO, directories) x atomic conditions over the always-available columns %s x every spelling of =, !=, ===, !==, >, >=, <, <= x literals drawn from the attribute values present, their neighbours v-1, v, v+1, unit spellings in any case, boolean words in any case, BETWEEN / NOT BETWEEN, column-vs-column; rows vs the comparison evaluated on lstat attributes (spec) and vs the regenerated typed comparison tables (model). non-trivial = a proper non-empty result" % (INT_COLS + STR_COLS + BOOL_COLS),
